@@ -1,6 +1,9 @@
 import PetgraphModel.Common
 import PetgraphModel.Model.Graph
 import PetgraphModel.Spec.CompactGraph
+import PetgraphModel.Model.GraphWalkers
+import PetgraphModel.Spec.CompactGraphWalkers
+import PetgraphModel.Spec.C01RunChecks
 /-
 C01 driver: runs the mirror model (`G`) and the compact-multigraph specification (`CGS`) side by
 side with the implementation's answers.
@@ -20,6 +23,12 @@ side with the implementation's answers.
   specified content (counts; node weights / edges as multisets), the implementation chose another
   admissible renumbering: the judge reports `MODELDIFF` (not a failing input) and stops spec-judging
   the rest of that case (`desync`); see `dumpVerdict`.
+* detached walkers kept alive across other calls (`walker_new a mode`, `walker_next w`): the mirror is
+  the walker layer `GW` (`Model/GraphWalkers.lean`), the judge is the executable specification
+  `GProofs.specWalkerNew` / `GProofs.specWalkerNext` (`Spec/CompactGraphWalkers.lean`) — the very
+  functions `C01_walker_all_histories` is stated with: while only structure-preserving calls
+  (`GW.keepsLinks`) happen a walker must list what `neighbors*` listed when it was detached; after a
+  structural change only "`None`, or a live edge with one of its endpoints, never a panic" is demanded.
 -/
 namespace PetgraphModel.C01
 open PetgraphModel PetgraphModel.G
@@ -32,6 +41,9 @@ structure DState where
   /-- 0: renumbering fully specified; 1: after remove_node / retain_edges (node numbering known);
   2: after retain_nodes (node numbering reference-order only) -/
   renum : Nat := 0
+  /-- mirror walkers (`GW.WState.ws`) and what the specification knows about each of them -/
+  wks : List Walker := []
+  sws : List GProofs.SWalker := []
 
 /-! ### printing -/
 
@@ -232,7 +244,7 @@ def optX (o : Option Nat) : String :=
   | none => "x"
   | some n => toString n
 
-def step (d : DState) (req : List String) (impl : String) : DState × String :=
+def stepCore (d : DState) (req : List String) (impl : String) : DState × String :=
   let g := d.g
   let sp := d.sp
   let n := sp.nodes.length
@@ -242,7 +254,9 @@ def step (d : DState) (req : List String) (impl : String) : DState × String :=
   -- a mutating call: model op, spec transition, spec check of the answer
   let mutate (op : Op) (sp' : CGS.Spec) (spec : Option String) (renum : Nat := 0) : DState × String :=
     let (g', ms) := runOp op
-    ({ d with g := g', sp := sp', renum := renum }, verdict d spec ms impl)
+    -- a call that may change the structure disturbs every live walker (`GProofs.WAccepts`)
+    let sws' := if GW.keepsLinks op then d.sws else d.sws.map GProofs.SWalker.disturb
+    ({ d with g := g', sp := sp', renum := renum, sws := sws' }, verdict d spec ms impl)
   let query (op : Op) (spec : Option String) : DState × String :=
     let (_, ms) := runOp op
     (d, verdict d spec ms impl)
@@ -386,6 +400,46 @@ def step (d : DState) (req : List String) (impl : String) : DState × String :=
     let spec := cmpList (spNbrOrdered sp mode) s!"walk({a},{mode})" (joinOr "," (want.map showPair)) impl
     let sp' := if b then want.foldl (fun s p => CGS.bumpEdge s p.1) sp else sp
     mutate (.walk a md b) sp' spec
+  -- ------------------------------------------------------------------ detached walkers
+  | ["walker_new", a, mode] =>
+    let a := nat a
+    let md := if mode == "u" then 2 else if mode == "i" then 1 else 0
+    let (ws', o) := GW.step ⟨g, d.wks⟩ (.walkerNew a md)
+    let ms := match o with | .walkerId k => toString k | _ => "?"
+    ({ d with wks := ws'.ws, sws := d.sws ++ [GProofs.specWalkerNew sp a md] },
+      verdict d (expect (toString d.sws.length) impl) ms impl)
+  | ["walker_next", w] =>
+    let w := nat w
+    match d.sws[w]? with
+    | none => bad
+    | some sw =>
+      let (ws', o) := GW.step ⟨g, d.wks⟩ (.walkerNext w)
+      let ms := match o with
+        | .item none => "none"
+        | .item (some p) => s!"some {showPair p}"
+        | .fault f => showFault f
+        | _ => "?"
+      -- the implementation's answer, parsed: `none` / `some e:n`
+      let ans : Option (Option (Nat × Nat)) :=
+        if impl == "none" then some none
+        else if impl.startsWith "some " then
+          match fields (impl.drop 5).toString with
+          | [e, x] => some (some (e, x))
+          | _ => none
+        else none
+      let state := match sw.rest with
+        | some rest => s!"undisturbed walker, still to list [{joinOr "," (rest.map showPair)}]{if sw.ordered then "" else " (as a multiset)"}"
+        | none => "walker whose graph was changed structurally: None or a live edge with one of its endpoints is specified"
+      match ans with
+      | none =>
+        ({ d with wks := ws'.ws, sws := d.sws.set w sw.disturb },
+          verdict d (some s!"walker_next({w}) must answer None or Some((edge, node)) and never panic, implementation answered [{impl}]") ms impl)
+      | some r =>
+        match GProofs.specWalkerNext sp sw r with
+        | some sw' => ({ d with wks := ws'.ws, sws := d.sws.set w sw' }, verdict d none ms impl)
+        | none =>
+          ({ d with wks := ws'.ws, sws := d.sws.set w sw.disturb },
+            verdict d (some s!"walker_next({w}) answered [{impl}]: {state}") ms impl)
   -- ------------------------------------------------------------------ queries
   | ["node_count"] => query .nodeCount (expect (toString n) impl)
   | ["edge_count"] => query .edgeCount (expect (toString m) impl)
@@ -533,5 +587,43 @@ def step (d : DState) (req : List String) (impl : String) : DState × String :=
       else (pairs.zip got).findSome? fun pg => judgeOne pg.1 pg.2
     dumpVerdict d spec none ms impl
   | _ => bad
+
+/-! ### run-time checks of the side conditions (see `Spec/C01RunChecks.lean`) -/
+
+/-- the index arguments (node / edge indices) of a request line -/
+def indexArgs (req : List String) : List Nat :=
+  let tri (l : String) : List Nat := (parseTriples l).flatMap fun t => [t.1, t.2.1]
+  match req with
+  | [f, a, b, _] =>
+    if f == "add_edge" || f == "try_add_edge" || f == "update_edge" || f == "try_update_edge" then [nat a, nat b]
+    else if f == "walk" then [nat a]
+    else []
+  | ["index_twice_mut", _, i, j, _, _] => [nat i, nat j]
+  | [f, a, b] =>
+    if f == "find_edge" || f == "find_edge_undirected" || f == "contains_edge" || f == "edges_connecting" then [nat a, nat b]
+    else if f == "node_weight_mut" || f == "edge_weight_mut" || f == "index_mut_node" || f == "index_mut_edge"
+      || f == "neighbors_directed" || f == "edges_directed" || f == "first_edge" || f == "next_edge" || f == "walker_new" then [nat a]
+    else []
+  | [f, a] =>
+    if f == "remove_node" || f == "remove_edge" || f == "node_weight" || f == "edge_weight" || f == "index_node"
+      || f == "index_edge" || f == "edge_endpoints" || f == "neighbors" || f == "neighbors_undirected" || f == "edges" then [nat a]
+    else if f == "extend_with_edges" || f == "from_edges" then tri a
+    else if f == "from_elements" then
+      (parseElems a).flatMap fun el => match el with | .edge x y _ => [x, y] | .node _ => []
+    else []
+  | _ => []
+
+def step (d : DState) (req : List String) (impl : String) : DState × String :=
+  match req with
+  | ["case", _, w, _] =>
+    if C01Checks.widthOkB w then stepCore d req impl
+    else ({}, s!"SPECFAIL bad request {req}: unknown index width")
+  | _ =>
+    let ia := indexArgs req
+    if !C01Checks.reprB d.g.endv ia then
+      (d, s!"SPECFAIL generator left the proved range: an index argument of {req} is not representable in the index type (max {d.g.endv})")
+    else if !C01Checks.usizeOkB d.g.endv d.g.nodes.length d.g.edges.length then
+      (d, s!"SPECFAIL generator left the proved range: a usize graph reached usize::MAX elements")
+    else stepCore d req impl
 
 end PetgraphModel.C01
